@@ -1,7 +1,7 @@
 (* Props/C20.v -- pb.fft dispatch; STFT labels; ISTFT inverts STFT.  Statements only. *)
 From Coq Require Import ZArith QArith Reals String List Bool.
 From Coquelicot Require Import Complex.
-From PB Require Import Gen.GenConsts Model.Band Model.Shift Model.Stft Lib.Dft Lib.DftC Proofs.BandProofs Proofs.StftProofs.
+From PB Require Import Gen.GenConsts Model.Band Model.Shift Model.Stft Lib.Dft Lib.DftC Proofs.BandProofs Proofs.StftProofs Gen.GenStft Proofs.StftGen.
 Import ListNotations.
 Open Scope Z_scope.
 
@@ -10,6 +10,8 @@ Open Scope Z_scope.
 Theorem C20_generated : fft_funcs = the_fourteen /\ fft_target_is_same_name = true /\
   fft_guard_raises_attribute_error = true /\ fft_has_dask_branch = true.
 Proof. exact generated_names. Qed.
+Theorem C20_generated_pass_through : fft_passes_arguments_through = true.
+Proof. exact generated_pass_through. Qed.
 Theorem C20_names : forall name,
   (In name the_fourteen -> dispatch name = Some name) /\ (~ In name the_fourteen -> dispatch name = None).
 Proof. exact dispatch_spec. Qed.
@@ -58,9 +60,26 @@ Example C20_witness :      (* 2 channels, top-aligned, nperseg 4: 8 sub-channels
     (stft_band (mk_band 1000 8 2 2) 4) = Some (8, 0, 996 # 1, 1010 # 1).
 Proof. vm_compute. reflexivity. Qed.
 
+(* tie to the source by translation (T9): the samples kept (whole segments), the output lengths, the sample rates, the alignment rule and
+   the two scalings by nperseg are GENERATED from contrib.stft / contrib.istft on this run; the model is proved equal to them *)
+Theorem C20_generated_lengths : forall len P, stft_len len P = gen_stft_keep len P / P /\ istft_len len P = len * gen_istft_cols P.
+Proof. exact (fun len P => conj (stft_len_generated len P) (istft_len_generated len P)). Qed.
+Theorem C20_generated_bands : forall (b : band) (P : Z),
+  stft_band b P = match freq_slice b None None None with
+                  | BOk b1 _ => Some (mk_band (cf b1) (gen_stft_rate (bw b) P) (nchan b * P) (if Z.odd P then 1 else 0))
+                  | BErr _ => None end /\
+  istft_band b P = mk_band (cf b) (gen_istft_rate (bw b) P) (nchan b / P) 1 /\
+  align_name (if Z.odd P then 1 else 0) = gen_stft_align P /\ align_name 1 = gen_istft_align.
+Proof. exact (fun b P => conj (stft_band_generated b P) (conj (istft_band_generated b P) (conj (stft_align_generated P) istft_align_generated))). Qed.
+Theorem C20_generated_scales : forall P, P <> 0 -> (gen_stft_scale P == 1 / inject_Z P)%Q /\ (gen_istft_scale P == inject_Z P)%Q /\
+  (gen_stft_scale P * gen_istft_scale P == 1)%Q.
+Proof. exact scales_generated. Qed.
+
 Print Assumptions C20_names.
 Print Assumptions C20_stft_labels.
 Print Assumptions C20_istft_band.
 Print Assumptions C20_ledger.
 Print Assumptions C20_istft_inverts.
 Print Assumptions C20_stft_tone.
+Print Assumptions C20_generated_bands.
+Print Assumptions C20_generated_scales.
